@@ -393,9 +393,35 @@ def run(ctx):
             return has_card and has_input
         ok_inherited = any(inherited_test(c) for c in conds) or any(
             a.kind == 'cmp' and a.args[0] == '==' and inherited_test(Term.of(a)) for c in conds for a in T.all_atoms(c).values())
-        ctx.ob('GUARDDOM', f'configuration step: the non-owned card {key} is assigned only if absent or if its present value is the one '
-               'inherited from the input recording (user-supplied cards are preserved)', pc_fi, ok_absent or ok_inherited,
-               {'path_condition': [pretty(c)[:160] for c in e.pc]}, node=e.node, construct=e.text()[:80] + ' [guard]')
+
+        def provenance_test(c):
+            """`KEY not in P` for a parameter P (other than the dictionary) that record() binds to the keys of the user's
+            dictionary taken before anything is merged into it: the card is then known not to be the user's.  An equality
+            with the input's value alone does not establish that -- the user may supply that very value."""
+            a = c.single_atom()
+            if a is None or a.kind != 'not':
+                return False
+            ia = a.args[0].single_atom()
+            if ia is None or ia.kind != 'cmp' or ia.args[0] != 'in' or ia.args[1].key != e.data['key'].key:
+                return False
+            pa = ia.args[2].single_atom()
+            if pa is None or pa.kind != 'sym' or pa.args[0] not in pc_fi.all_params() or pa.args[0] == 'header_dict' or pop is None:
+                return False
+            bound = (pop.data.get('bound') or {}).get(pa.args[0])
+            if bound is None:
+                return False
+            ats = T.all_atoms(bound).values()
+            users = any(x.kind == 'sym' and x.args[0] == 'header_dict' for x in ats)
+            merged = any((x.kind == 'call' and ('_header_add' in str(x.args[0]) or str(x.args[0]).startswith('mut.')))
+                         or x.kind in ('store', 'after', 'loopvar') for x in ats)
+            return users and not merged
+        ok_user = any(provenance_test(c) for c in conds)
+        ctx.ob('GUARDDOM', f'configuration step: the non-owned card {key} is assigned only if absent or if it is known not to be the '
+               "user's (the key is tested against the keys of the user's own dictionary, taken in record() before the template "
+               'and input header are merged in): user-supplied cards are preserved, also one equal to the input recording\'s',
+               pc_fi, ok_absent or ok_user,
+               {'path_condition': [pretty(c)[:160] for c in e.pc], 'tested_equal_to_inherited_value': ok_inherited},
+               node=e.node, construct=e.text()[:80] + ' [guard]')
     # (dict.setdefault assigns only when the key is absent: guarded by construction)
     n_free += len([e for e in Ip.events if e.kind == 'call' and e.data.get('name') == '.setdefault' and len(e.data['args']) >= 2
                    and e.data['args'][1].single_atom() is not None and e.data['args'][1].single_atom().kind == 'str'
